@@ -37,6 +37,11 @@ def pInt : P Int := do
   | none => failure
 
 def pQ : P Q := do
+  let n ← pNat
+  let d ← pNat
+  if d = 0 then failure else pure ⟨n, d⟩
+
+def pSQ : P SQ := do
   let n ← pInt
   let d ← pNat
   if d = 0 then failure else pure ⟨n, d⟩
@@ -52,7 +57,7 @@ def pMany {α : Type} (p : P α) : Nat → P (List α)
 
 def pOut : P Out := do
   let f ← pQ
-  let p ← pQ
+  let p ← pSQ
   let m ← pQ
   pure ⟨f, p, m⟩
 
@@ -66,6 +71,10 @@ def pEnd : P Unit := do
   | _ => failure
 
 def sQ (q : Q) : String :=
+  let n := q.norm
+  s!"{n.num} {n.den}"
+
+def sSQ (q : SQ) : String :=
   let n := q.norm
   s!"{n.num} {n.den}"
 
@@ -88,7 +97,7 @@ def cXilinx : P String := do
     let fs := c.freqs r
     let per := (c.ds.zip fs).map fun (dv, f) => s!"{sQ dv} {sQ f}"
     let ps := xParams prim r c
-    let pstr := ps.map fun (n, v) => s!"{n} {sQ v}"
+    let pstr := ps.map fun (n, v) => s!"{n} {sSQ v}"
     pure s!"some {c.divclk} {sQ c.mult} {sQ (c.vco r)} {c.ds.length} {join per} | {ps.length} {join pstr}"
 
 def pEOut : P EOut := do
@@ -135,7 +144,7 @@ def cNxOsc : P String := do
   let f ← pQ
   let m ← pQ
   pEnd
-  match nxOscDiv Gen.nxoscLo Gen.nxoscHi Gen.nxoscHf ⟨f, Q.zero, m⟩ with
+  match nxOscDiv Gen.nxoscLo Gen.nxoscHi Gen.nxoscHf ⟨f, SQ.zero, m⟩ with
   | none => pure "none"
   | some dv => pure s!"some {dv}"
 
@@ -170,7 +179,7 @@ def cGwOsc : P String := do
   let f ← pQ
   let m ← pQ
   pEnd
-  match gOscDiv Gen.gwoscLo Gen.gwoscHi osc ⟨f, Q.zero, m⟩ with
+  match gOscDiv Gen.gwoscLo Gen.gwoscHi osc ⟨f, SQ.zero, m⟩ with
   | none => pure "none"
   | some dv => pure s!"some {dv}"
 
